@@ -134,12 +134,13 @@ def skip_task(task, context, completed_task_queue, reason=""):
 
 
 def skip_all_tasks(tasks, remaining_tasks, completed_tasks, context, pool, completed_tasks_queue, reason):
-    # schedule all tasks to be skipped...
-    for task in remaining_tasks:
-        pool.apply_async(skip_task, args=(task, context, completed_tasks_queue, reason))
-
-    # ... and wait for their completion
     while len(completed_tasks) != len(tasks):
+        # schedule the remaining tasks to be skipped as soon as the tasks they depend on are completed
+        # (a teardown must not be done while a test that is still running needs what it tears down)...
+        for task in pop_runnable_tasks(remaining_tasks, completed_tasks, len(remaining_tasks)):
+            pool.apply_async(skip_task, args=(task, context, completed_tasks_queue, reason))
+
+        # ... and wait for their completion
         completed_task = completed_tasks_queue.get()
         completed_tasks.add(completed_task)
 
